@@ -421,6 +421,12 @@ class Interp:
             val = (c == 0)
             self.decisions.append((f"{v!r} != 0", val, v.name, val))
             return val
+        if isinstance(v, EnumVal) and isinstance(v.value, (int, float)) and not isinstance(v.value, bool) and any(b in ("IntEnum", "IntFlag", "Flag") for b in v.cls.bases):
+            return bool(v.value)          # an IntEnum / flag member is as true as its number (member 0 is falsy)
+        if isinstance(v, EnumVal):
+            bl = self.p.find_method(v.cls, "__bool__")
+            if bl:
+                return self.truth(self.call_fi(bl, [v], {}))
         if isinstance(v, (EnumVal, Obj, Func, ClassRef, ExtRef, ExcVal, BoundBuiltin)):
             if isinstance(v, Obj) and v.cls is not None:
                 ln = self.p.find_method(v.cls, "__len__")
